@@ -42,6 +42,14 @@ PROPS["C02"] = dict(
         "Zrnt.Proofs.C02.rewards_phase0_eq",
         "Zrnt.Proofs.C02.processEpoch_eq",
         "Zrnt.Proofs.C02.processSlots_eq_partial",
+        "Zrnt.Proofs.C02.processSlot_eq",
+        "Zrnt.Proofs.C02.upgrade_altair_eq",
+        "Zrnt.Proofs.C02.translate_participation_eq",
+        "Zrnt.Proofs.C02.upgrade_bellatrix_eq",
+        "Zrnt.Proofs.C02.upgrade_capella_eq",
+        "Zrnt.Proofs.C02.upgrade_deneb_eq",
+        "Zrnt.Proofs.C02.upgradeMaybe_eq",
+        "Zrnt.Proofs.C02.processSlotsStep_eq",
         "Zrnt.Proofs.C02.attestationDeltas_phase0_eq",
         "Zrnt.Proofs.C02.targetStakes_phase0_eq",
         "Zrnt.Proofs.C02.effectiveBalance_snapshot_eq",
